@@ -1,2 +1,12 @@
+/-
+  Lemmas about the parse model (C09 / C07).  The work is split over the `Pa*` files:
+  `PaNum` (decimal numerals), `PaInt` (`ParseInt`), `PaSub` (`ParseSubSeconds`, `ParseOffset`),
+  `PaStep` (the specifier loop and `parse`), `PaPercent` (the closed format "%s").
+-/
 import Cctz.Model.Parse
 import Cctz.Spec.FormatSpec
+import Cctz.Proofs.PaNum
+import Cctz.Proofs.PaInt
+import Cctz.Proofs.PaSub
+import Cctz.Proofs.PaStep
+import Cctz.Proofs.PaPercent
